@@ -142,7 +142,7 @@ impl Dec {
         let zero = BigInt::from(0u32);
         if self.m < zero { self.neg() } else { self.clone() }
     }
-    fn cmp(a: &Dec, b: &Dec) -> Option<Ordering> {
+    pub fn cmp(a: &Dec, b: &Dec) -> Option<Ordering> {
         let (x, y, _) = Dec::align(a, b)?;
         Some(x.cmp(&y))
     }
